@@ -35,7 +35,11 @@ CFG = dict(
     rule="real goat.ClientConn - in-memory FIFO wires - real goat.Server inside synctest bubbles; caller and handler programs are data. "
          "(A) directed: the terminal Recv (or the last Send) parked at the cs.recv.checked / cs.send.checked yield point after its "
          "done-check, everything else run to completion (trailer delivered, stream torn down), then released: 3 kinds x {0,1,2} messages "
-         "x {echo, burst, reply-after-EOF}; (B) seeded random lock-step schedules over {user step, handler step, deliver c2s, deliver "
+         "x {echo, burst, reply-after-EOF}; (A2) fault after successful completion: handler returned nil, n in 0..3 messages + OK trailer "
+         "delivered to the client's transport, the slow caller has consumed p <= n of them, then the connection fails: the caller must "
+         "still get the rest and io.EOF; (A3) a SendMsg parked in a blocked transport Write while the handler returns nil and the OK "
+         "trailer is processed: the receiver must see io.EOF; two services x two stream methods of each kind, each with its own handler "
+         "(a wrong-handler dispatch fails the stream); (B) seeded random lock-step schedules over {user step, handler step, deliver c2s, deliver "
          "s2c, release}: 1..4 (thorough up to 32) concurrent streams x 3 kinds x counts {0,1,2,5,20} (thorough 50, 200) x caller programs "
          "{send-all-then-receive, ping-pong, concurrent sender + receiver threads, early half-close, receive-only} x handler programs "
          "{echo, burst n, reply-after-EOF, return-before-EOF, recv 1 + burst n; 1 in 8 returning an error status} x a yield placement, "
